@@ -116,3 +116,39 @@ def script_c03(case, naming, tier, seed):
     b.run(case['hist'])
     events = b.events + [observe.query(b.model, naming)]
     return events, None
+
+
+# ---------------------------------------------------------------------------
+def load_event(case, naming):
+    b = Builder(naming, log=False)
+    b.run(case['hist'])
+    from project import project
+    post, anom = project(b.model, naming)
+    return b, {'a': 'Load', 'args': {'model': case['model']}, 'out': 'value', 'post': post, 'anom': anom}
+
+
+def ops_script(ops):
+    def script(case, naming, tier, seed):
+        b, ev = load_event(case, naming)
+        events = [ev]
+        objid = 0
+        for op in ops:
+            if op == 'ancestors':
+                for name in sorted(b.objs):
+                    objid += 1
+                    events.append(observe.exec_op(observe.new_op(op), objid, op, b.model, naming, b.objs[name]))
+            else:
+                objid += 1
+                events.append(observe.exec_op(observe.new_op(op), objid, op, b.model, naming))
+        return events, None
+    return script
+
+
+SEM_ASSUME = ['Boolean models; constraints purely propositional over feature names',
+              'exact counts are brute force over all 2^n selections, n <= family bound']
+prop('C13', ['Tree', 'TreeCtc'], naming_matters=False, assumptions=SEM_ASSUME)(ops_script(['estimate']))
+prop('C14', ['Tree', 'TreeCtc'], naming_matters=False, assumptions=SEM_ASSUME)(ops_script(['core']))
+prop('C15', ['Tree', 'TreeCtc'], naming_matters=False, assumptions=SEM_ASSUME)(ops_script(['atomic']))
+prop('C16', ['Tree', 'DecorAbs'], naming_matters=False,
+     assumptions=['corpus models above the TLC size bound are judged on scalar summaries only'])(
+    ops_script(['leaves', 'count_leaves', 'depth', 'abf', 'varpoints', 'ancestors']))
